@@ -1235,6 +1235,10 @@ extern "C" {
             (void)dr_check(x->next);
             s->info.logical_edge_counts[dr_dag_edge_kind_create]++;
             s->info.logical_edge_counts[dr_dag_edge_kind_create_cont]++;
+            /* the child's end -> the successor of this section; counted
+               here (not in the parent of s), so that it is not lost when
+               s is collapsed and its parent is not */
+            s->info.logical_edge_counts[dr_dag_edge_kind_end]++;
             s->info.n_child_create_tasks++;
             /* similar accumulation for x's child task */
             (void)dr_check(c);
@@ -1297,8 +1301,6 @@ extern "C" {
           case dr_dag_node_kind_section:
             if (x->next) {
               s->info.logical_edge_counts[dr_dag_edge_kind_wait_cont]++;
-              s->info.logical_edge_counts[dr_dag_edge_kind_end] 
-                += x->info.n_child_create_tasks;
             }
             break;
           default:
